@@ -762,6 +762,20 @@ package leveldb
 //@   at before call (*tableCompactionBuilder).flush#1
 //@     assert [C06:tables-cut-only-at-user-key-boundary] !gPrevOK || gPrevU != krank(ukey)
 
+// C01: the table walk of a lookup. In a level below the top the walk offers at most one table to the lookup, the
+// first whose largest key is not before the lookup key; every other table of the level cannot hold an entry of the
+// user key that is visible at the lookup's sequence number (an entry e with e.ukey == ukey and e >= ikey in the
+// internal order must lie in [imin, imax]). That the level is sorted and disjoint is the C06 induction hypothesis.
+//@ spec func mayHold(t ref, ik ikey) bool = ikcmp(t.imax, ik) >= 0 && kcmp(ukeyof(ik), ukeyof(t.imin)) >= 0 && kcmp(ukeyof(ik), ukeyof(t.imax)) <= 0
+//@ func (*version).walkOverlapping
+//@   props C01
+//@   abstract keys
+//@   safety off
+//@   at before call (tFiles).searchMax#1
+//@     assume [C01:levels-below-the-top-are-sorted-and-disjoint] sortedDisjoint(tables)
+//@   at call (tFiles).searchMax#1
+//@     assert [C01:tables-not-offered-cannot-hold-a-visible-entry] forall j int :: (0 <= j && j < len(tables) && j != result) ==> !mayHold(tables[j], ikey)
+
 // C01 / C03 / C06: a deletion marker may be dropped only when no deeper level can still hold an older entry for its
 // user key. "Base level" must therefore mean: no table of any level below the compaction's output level has the
 // key inside its range. The per-level cursors only move forward; that the tables they have passed lie wholly before
@@ -904,7 +918,13 @@ package leveldb
 //@   props C18
 //@   safety off
 //@   guarantees [C18:read-only-open-mutates-nothing] readOnly ==> (calls("storage.Storage.Create") == old(calls("storage.Storage.Create")) && calls("storage.Storage.Remove") == old(calls("storage.Storage.Remove")) && calls("storage.Storage.Rename") == old(calls("storage.Storage.Rename")) && calls("storage.Storage.SetMeta") == old(calls("storage.Storage.SetMeta")))
+//@   ensures [C18:read-only-open-mutates-nothing-for-callers] (old(s.o) != nil && old(s.o.Options) != nil && old(s.o.Options.ReadOnly)) ==> (calls("storage.Storage.Create") == old(calls("storage.Storage.Create")) && calls("storage.Storage.Remove") == old(calls("storage.Storage.Remove")) && calls("storage.Storage.Rename") == old(calls("storage.Storage.Rename")) && calls("storage.Storage.SetMeta") == old(calls("storage.Storage.SetMeta")))
 
+// ... also when there is no DB to open: a read-only Open of an empty storage must fail, not create one.
+//@ func Open
+//@   props C18
+//@   safety off
+//@   guarantees [C18:read-only-open-never-creates-a-db] (s != nil && s.o != nil && s.o.Options != nil && s.o.Options.ReadOnly) ==> (calls("storage.Storage.Create") == old(calls("storage.Storage.Create")) && calls("storage.Storage.Remove") == old(calls("storage.Storage.Remove")) && calls("storage.Storage.Rename") == old(calls("storage.Storage.Rename")) && calls("storage.Storage.SetMeta") == old(calls("storage.Storage.SetMeta")))
 // After Close every method answers with the closed error and leaves the storage alone (a second Close too).
 //@ func (*DB).Get
 //@   props C18
@@ -1190,7 +1210,7 @@ package leveldb
 // being assembled: frame assumed).
 //@ func (*session).create
 //@   trusted
-//@   modifies s.*
+//@   modifies s.manifest, s.manifestFd, s.manifestWriter, s.stCompPtrs, s.stJournalNum, s.stNextFileNum, s.stPrevJournalNum, s.stSeqNum
 //@ func recoverTable
 //@   props C19
 //@   safety off
